@@ -8,6 +8,11 @@ package server
 // slabs were reused and that its workload ran against the bounds it asked
 // for. Nothing here changes behaviour.
 
+import (
+	"sync"
+	"sync/atomic"
+)
+
 // VerifC10EngineStats is a snapshot of one Server's owned engines.
 type VerifC10EngineStats struct {
 	// UDP engine
@@ -36,6 +41,55 @@ type VerifC10StreamStats struct {
 	LargeFree   int
 	SmallParked int
 	LargeParked int
+	// StreamAllocs is how many per-connection framing buffers (tcpStream) the
+	// engine's pool had to allocate since VerifC10CountStreamAllocs was called
+	// on the server (-1: not counting). Every served connection takes exactly
+	// one stream from that pool, so (connections served) - StreamAllocs is a
+	// lower bound of the connections that ran on a RECYCLED stream.
+	StreamAllocs int64
+}
+
+// verifC10StreamAllocs maps *tcpEngine to its allocation counter.
+var verifC10StreamAllocs sync.Map
+
+// VerifC10CountStreamAllocs makes the tcpStream pools of s count their
+// allocations. The pool's New function is replaced by one that does exactly
+// what the engine's own does (new(tcpStream)) and increments a counter. It
+// must be called after Run and BEFORE the first connection is dialled: the
+// assignment is made under the engine lock, which every connection passes
+// (register) before its goroutine touches the pool, so it is ordered before
+// every pool access.
+func VerifC10CountStreamAllocs(s *Server) {
+	s.listenersMu.Lock()
+	ls := append([]Listener(nil), s.listeners...)
+	s.listenersMu.Unlock()
+	for _, l := range ls {
+		var e *tcpEngine
+		switch v := l.(type) {
+		case *tcpListener:
+			v.mu.Lock()
+			e = v.engine
+			v.mu.Unlock()
+		case *tlsListener:
+			v.mu.Lock()
+			e = v.engine
+			v.mu.Unlock()
+		}
+		if e == nil {
+			continue
+		}
+		if _, done := verifC10StreamAllocs.Load(e); done {
+			continue
+		}
+		ctr := new(atomic.Int64)
+		e.mu.Lock()
+		e.streams.New = func() any {
+			ctr.Add(1)
+			return new(tcpStream)
+		}
+		e.mu.Unlock()
+		verifC10StreamAllocs.Store(e, ctr)
+	}
 }
 
 // VerifC10Stats reads the engines of s. Safe to call at any time after Run.
@@ -82,7 +136,12 @@ func VerifC10Stats(s *Server) VerifC10EngineStats {
 }
 
 func verifC10Stream(e *tcpEngine) VerifC10StreamStats {
+	allocs := int64(-1)
+	if c, ok := verifC10StreamAllocs.Load(e); ok {
+		allocs = c.(*atomic.Int64).Load()
+	}
 	return VerifC10StreamStats{
+		StreamAllocs: allocs,
 		Proto:       e.proto,
 		MaxConns:    e.maxConns,
 		Active:      e.active.Load(),
